@@ -117,12 +117,10 @@ def Op.ghost (g : Ghost) : Op → Ghost
   | _ => g
 
 /-- the arguments are ones the callers can pass: window sizes are at most 2^31-1 (`Connection::
-    set_target_window_size` asserts it, SETTINGS_INITIAL_WINDOW_SIZE above it is refused by the peer),
-    a handle holds a key that the store handed out -/
-def Op.valid (s : Streams) : Op → Prop
+    set_target_window_size` asserts it, SETTINGS_INITIAL_WINDOW_SIZE above it is refused by the peer) -/
+def Op.valid (_s : Streams) : Op → Prop
   | .setTargetConnectionWindow t => t ≤ 2147483647
   | .applyLocalSettings vals => ∀ t, settingsIws vals = some t → t ≤ 2147483647
-  | .dropStreamRef k => k < s.store.nextKey
   | _ => True
 
 /-- the call did not end in the connection errors that leave the stream-level books unbalanced:
@@ -165,7 +163,7 @@ theorem Op.step_inv {full : Bool} {g : Ghost} {s : Streams} (h : Inv full g s) (
   | cloneHandle => exact ext _ (cloneHandle_ext s)
   | dropHandle => exact ext _ (dropHandle_ext s)
   | cloneStreamRef k => exact ext _ (cloneStreamRef_ext s k)
-  | dropStreamRef k => exact inv _ (dropStreamRef_inv h k hv)
+  | dropStreamRef k => exact inv _ (dropStreamRef_inv h k)
   | sendRequest b f e p => exact ext _ (sendRequest_ext s b f e p)
   | pollPendingOpen p t => exact ext _ (pollPendingOpen_ext s p t)
   | nextIncoming => exact ext _ (nextIncoming_ext s)
